@@ -1,8 +1,8 @@
 (* C05 — facts about the regenerated tables (Gen/TablesData.v) used by the XML-generation theorems, and the
    concrete witnesses of the open defects (computed with the real SyncML 1.1 rows). *)
-From Coq Require Import List NArith Bool.
+From Coq Require Import List NArith Arith Lia Bool.
 From Coq Require Import String.
-From Wbxml Require Import Model.TablesDefs Model.Codec Model.EncXml Model.XmlRead Gen.TablesData Proofs.EncXmlProofs Proofs.EncXmlIndent.
+From Wbxml Require Import Model.TablesDefs Model.Codec Model.EncXml Model.XmlRead Gen.TablesData Proofs.EncXmlProofs Proofs.EncXmlIndent Proofs.EncXmlSize.
 Import ListNotations.
 Local Open Scope N_scope.
 
@@ -85,3 +85,16 @@ Example full_tree_ok :
   node_ok_g syncml11 (opts_of_params Indent 2 false) proot None full_tree = true /\
   exists out d, enc_xml syncml11 Indent 2 false [full_tree] = XOk out /\ read_xml_auto out = ROk d.
 Proof. split; [vm_compute; reflexivity|]. eexists. eexists. split; [vm_compute; reflexivity|]. vm_compute. reflexivity. Qed.
+
+(* the longest namespace name of the regenerated tables (bound K of the size theorem) *)
+Definition ns_len_max : nat := fold_right (fun l m => Nat.max (ns_len l) m) 0%nat xmain.
+
+Lemma ns_len_max_value : ns_len_max = 54%nat.
+Proof. vm_compute. reflexivity. Qed.
+
+Lemma ns_len_main l : In l xmain -> (ns_len l <= ns_len_max)%nat.
+Proof.
+  unfold ns_len_max. induction xmain as [|x r IH]; [contradiction|]. intros [->|H]; cbn [fold_right].
+  - lia.
+  - specialize (IH H). lia.
+Qed.
